@@ -44,7 +44,7 @@ ASSUMPTIONS = [
 TARGETS = ["LAMMPS", "DLPOLY", "GULP", "excel", "setfl", "setfl_fs", "DL_POLY_EAM", "DL_POLY_EAM_fs",
            "excel_eam", "excel_eam_fs", "eam_adp"]
 REQUIRED = dict(("target:" + t, 2) for t in TARGETS)
-REQUIRED.update({"route:potable": 20, "route:api": 20})
+REQUIRED.update({"route:potable": 20, "route:api": 20, "table>=1MiB": 4})
 CLASSES = {"LAMMPS": PT.LAMMPS_PairTabulation, "DLPOLY": PT.DLPoly_PairTabulation, "GULP": PT.GULP_PairTabulation,
            "excel": PT.Excel_PairTabulation, "setfl": ET.SetFL_EAMTabulation, "setfl_fs": ET.SetFL_FS_EAMTabulation,
            "DL_POLY_EAM": ET.TABEAM_EAMTabulation, "DL_POLY_EAM_fs": ET.TABEAM_FinnisSinclair_EAMTabulation,
@@ -53,6 +53,10 @@ CLASSES = {"LAMMPS": PT.LAMMPS_PairTabulation, "DLPOLY": PT.DLPoly_PairTabulatio
 
 
 class Injected(Exception):
+    pass
+
+
+class OutOfDomain(Exception):
     pass
 
 
@@ -73,19 +77,25 @@ class Counter(object):
 
 
 @st.composite
-def _case(draw, target):
-    route = draw(st.sampled_from(["api", "potable"]))
+def _case(draw, target, large=False):
+    route = "api" if large else draw(st.sampled_from(["api", "potable"]))
     if target in gen.EAM_TARGETS:
-        m = draw(gen.eam_model(gen.EAM_TARGETS[target], 1, 2, depth=0, max_customs=0))
+        m = draw(gen.eam_model(gen.EAM_TARGETS[target], 2 if large else 1, 2, depth=0, max_customs=0))
         m["grid"] = {"nr": draw(st.integers(3, 7)), "cutoff": draw(st.sampled_from([2.0, 3.5, 5.0])),
                      "nrho": draw(st.integers(3, 6)), "cutoff_rho": draw(st.sampled_from([1.0, 4.0]))}
+        if large:
+            # tables of well over a megabyte: whatever is handed to the destination in pieces shows only here
+            m["grid"]["nr"] = m["grid"]["nrho"] = draw(st.sampled_from([12000, 14000]))
     else:
-        m = draw(gen.pair_model(2, 0, max_tables=0, max_customs=0))
+        m = draw(gen.pair_model(2, 0, max_tables=0, max_customs=0, min_pots=2 if large else 1))
         m["kind"] = "pair"
         nr = draw(st.integers(3, 8))
         if target == "DLPOLY":
             nr = 8
+        if large:
+            nr = draw(st.sampled_from([24000, 30000]))
         m["grid"] = {"nr": nr, "cutoff": draw(st.sampled_from([2.0, 3.5, 5.0]))}
+    m["large"] = large
     m["target"] = target
     m["route"] = route
     m["fault_row"] = draw(st.integers(0, 6))
@@ -97,13 +107,16 @@ def strategy(tier):
     return _case("LAMMPS")
 
 
+LARGE_TARGETS = ["LAMMPS", "DLPOLY", "GULP", "setfl", "setfl_fs", "DL_POLY_EAM", "DL_POLY_EAM_fs", "eam_adp"]
+
+
 def strata(tier):
-    return [(t, _case(t), 1) for t in TARGETS]
+    return [(t, _case(t), 6) for t in TARGETS] + [("large:" + t, _case(t, True), 1) for t in LARGE_TARGETS]
 
 
 def budget(tier):
     if tier == "quick":
-        return {"examples": 66}
+        return {"examples": 74}
     return {"examples": 440, "shards": 16}
 
 
@@ -141,12 +154,22 @@ def _check_api(m, v, stats):
     target = m["target"]
     c0 = Counter()
     fp = _fp(target)
-    _build(m, c0).write(fp)
+    try:
+        _build(m, c0).write(fp)
+    except (ZeroDivisionError, OverflowError, ValueError) as e:
+        # the generated model itself cannot be tabulated on this grid (a function undefined at r = 0, ...):
+        # outside the domain of this check, which injects its own failures into models that tabulate
+        raise OutOfDomain(repr(e))
     total = c0.n
     clean = anymodel.normalise_output(target, fp.getvalue())
     kinds = c0.kinds
     stats["totals"].append(total)
-    for k in range(1, total + 2):
+    ks = range(1, total + 2)
+    if m.get("large"):
+        # positions spread over the write instead of every one (each attempt costs ~total evaluations)
+        ks = sorted(set([max(1, int(total * f)) for f in (0.3, 0.55, 0.8, 0.97)] + [total]))
+        stats["large_bytes"] = len(fp.getvalue())
+    for k in ks:
         c = Counter(k)
         fp = _fp(target)
         stats["evaluations"] += 1
@@ -169,7 +192,7 @@ def _check_api(m, v, stats):
                 break
             # "the whole table or nothing" also for a second attempt on the same object once the cause of the
             # failure is gone: it must not hand out a table built from the half-finished first attempt
-            if tab is not None and k in (1, max(1, total // 2), total):
+            if tab is not None and k in (1, max(1, total // 2), total) and not m.get("large"):
                 c.fail_at = None
                 fp2 = _fp(target)
                 try:
@@ -296,8 +319,12 @@ def check_case(m):
             _check_potable(m, v, stats, cli=bool(m.get("cli")))
     except Injected:
         raise
+    except OutOfDomain:
+        return {"v": [], "cls": cls, "nt": False, "skip": True}
     except Exception as e:
         v.append(("harness:%s:%s@%s" % (target, type(e).__name__, libroute.innermost_atsim_frame(e)), "%r" % (e,)))
+    if stats.get("large_bytes", 0) >= 2 ** 20:
+        cls.append("table>=1MiB")
     return {"v": v, "cls": cls, "nt": len(stats["nontrivial"]) > 0, "evals": max(1, stats["evaluations"]),
             "nt_keys": sorted(str(k) for k in stats["nontrivial"])}
 
